@@ -260,7 +260,7 @@ def traffic_pair(kind, k):
             raise r[1]
     ok_i, ok_t = app["i"].active, app["t"].active
     ev = [dict(a="Activate", ok=ok_i and ok_t, ok_i=ok_i, ok_t=ok_t, proj={})]
-    tr = dict(id="%s.%d" % (kind, k), const=dict(kind=kind, k=k, cfg=x), ev=ev)
+    tr = dict(id="%s.%d" % (kind, k), const=dict(kind=kind, k=k, cfg=x), ev=ev, slow=shared.get("slow", 0))
     if not (ok_i and ok_t):
         return tr
     ev[0]["proj"] = projection(air, shared["i"], shared["t"])
@@ -478,7 +478,8 @@ def run(tier, seed):
         for suffix, inv in (("-agf+1", "Obey"), ("-wait+1ms", "Timeouts")):
             if (t["id"] + suffix + "#" + inv) not in verdicts:
                 raise tlc.TLCError("binding vacuous: %s%s not flagged by %s" % (t["id"], suffix, inv))
-    if not usable and all(verdicts[t["id"]][0] == "ACCEPT" for t in traces):
+    if not usable and all(verdicts[t["id"]][0] == "ACCEPT" for t in traces) \
+            and not any("#" in vid and not vid.split("#")[0].endswith(("-agf+1", "-wait+1ms")) for vid in verdicts):
         raise tlc.TLCError("binding vacuous: no full-traffic run usable for the self-test")
     acc = nframes = nx = nup = nllc = nfull = 0
     for tr in traces:
@@ -510,7 +511,7 @@ def run(tier, seed):
             tr["id"], v[1], v[2], json.dumps(v[3], default=list)[:600], json.dumps(tr["const"]["cfg"]),
             json.dumps(tr["ev"][v[1] - 1])[:500]),
             replay=dict(kind=tr["const"]["kind"], k=tr["const"]["k"], full=any(e["a"] == "Dep" for e in tr["ev"])))
-    ck.cover(full_traffic_runs=nfull, llc_pdus_checked=nllc,traces_validated_against_impl=acc, activations=len(traces), activated=nup, grid_size=grid,
+    ck.cover(full_traffic_runs=nfull, llc_pdus_checked=nllc, slow_target_answers=sum(t.get("slow", 0) for t in traces),traces_validated_against_impl=acc, activations=len(traces), activated=nup, grid_size=grid,
              distinct_configurations=distinct, tlc_initial_states=init_states,
              exhaustive_over_structured_grid=exhaustive, full_product_size="~1.1e8 (not enumerated)",
              traffic_frames_monitored=nframes, llcp_pdus_transferred=nx, trace_states=st["states"],
